@@ -132,6 +132,20 @@ def h_poly_scalar(sx, cfg):
         want = want + P.d2(a)
     for idx in np.ndindex(*n):
         sx.check(f"laplace{idx}", sx.eq(lap.array[idx + (0,)], want))
+    # history: values overwritten in place through the array returned by f.array; the operators follow the current values
+    P2 = Poly(sx, "R", nd)
+    for idx in np.ndindex(*n):
+        f.array[idx + (0,)] = P2.at(cen[idx])
+    g2 = f.grad
+    lap2 = f.laplace
+    want2 = 0.0
+    for a in range(nd):
+        want2 = want2 + P2.d2(a)
+    for idx in np.ndindex(*n):
+        for a in range(nd):
+            if cba[a] is not None:
+                sx.check(f"grad-after-in-place-write{idx}[{a}]", sx.eq(g2.array[idx + (cba[a],)], P2.d(cen[idx], a)))
+        sx.check(f"laplace-after-in-place-write{idx}", sx.eq(lap2.array[idx + (0,)], want2))
     # div(grad f) goes through the mapping of the gradient: equals the Laplacian's analytic value as well? No: the
     # composed first differences are a wider stencil and only exact for the interior; not part of the statement.
 
@@ -311,7 +325,8 @@ def tasks(tier):
         for perm in ([(0, 1, 2), (1, 2, 0)] if q else list(itertools.permutations(range(3)))):
             t.append(dict(harness="h_identity", cfg=dict(n=list(n), what="divcurl", periodic=per, dims=dims, perm=list(perm), labels="custom" if perm[0] else "default"), limits=big))
     rot = []
-    for what, n in (("grad", (3, 2)), ("div", (3, 2)), ("laplace_s", (2, 3)), ("laplace_v", (3, 2)), ("grad", (2, 3, 2)), ("div", (2, 2, 3)), ("curl", (3, 2, 2))):
+    for what, n in (("grad", (3, 2)), ("div", (3, 2)), ("laplace_s", (2, 3)), ("laplace_v", (3, 2)), ("laplace_s", (4, 3)), ("laplace_v", (2, 4)), ("grad", (4, 2)),
+                    ("grad", (2, 3, 2)), ("div", (2, 2, 3)), ("curl", (3, 2, 2))):
         nd = len(n)
         pairs = list(itertools.permutations(range(nd), 2))
         ks = [1, 2, 3] if not q else [1]
